@@ -170,6 +170,8 @@ def _thresholds(rng, x):
     ts = rng.sample([0.01, 0.05, 0.1, 0.125, 0.2, 0.25, 0.3, 0.5, 0.75, 1.0], 3)
     j = rng.randrange(1, len(x))
     ts.append((x[j] - x[j - 1]) / (x[-1] - x[0]))      # harvested: an observed normalised gap
+    if rng.random() < 0.3:
+        ts.append(rng.choice([1.5, 3.0, 50.0]))        # t > 1 is a valid threshold: normalised distances never reach it
     return sorted(set(t for t in ts if t > 0))
 
 
